@@ -2,7 +2,7 @@
    Front-end part: the line splitter and splitPatch.  (The step from "the pattern texts
    differ only in white space" to "same pattern tree" is the go/parser oracle; renaming of
    metavariables and re-wrapping are engine-level and stated with the engine model.) *)
-From GP Require Import Bytes Section Meta SectionFacts MetaFacts.
+From GP Require Import Bytes Section Meta SectionFacts MetaFacts Replace DotsFacts.
 
 (* '#' lines anywhere: the splitter hands on exactly the non-comment lines ... *)
 Theorem C13_comments_skipped : forall ls pend,
@@ -72,6 +72,17 @@ Theorem C13_meta_order : forall t1 t2 nm,
   lookup_var t1 nm = lookup_var t2 nm.
 Proof. exact lookup_var_order_insensitive. Qed.
 Print Assumptions C13_meta_order.
+
+(* Re-wrapping / re-indenting: which '-' elision a '+' elision stands for depends only on the
+   ORDER of the elisions' positions in the patch.  Any change of layout that keeps the (line,
+   column) order among the elisions of a change keeps the pairing. *)
+Theorem C13_rewrap : forall (f : dpos -> dpos) (S : dpos -> Prop) lhs rhs,
+  (forall a, dp_id (f a) = dp_id a) ->
+  (forall a b, S a -> S b -> dpos_le (f a) (f b) = dpos_le a b) ->
+  (forall x, In x lhs -> S x) -> (forall x, In x rhs -> S x) ->
+  connect_dots (map f lhs) (map f rhs) = connect_dots lhs rhs.
+Proof. intros f S lhs rhs Hid Hle. exact (connect_dots_order_only f S Hid Hle lhs rhs). Qed.
+Print Assumptions C13_rewrap.
 
 From Coq Require Import String.
 Example C13_ex :
